@@ -19,7 +19,9 @@ BK = C4.BK
 def pipeline(vc, npol, nbits, digitize, start_obs):
     """A backend record plus stage contracts with ghost stream positions."""
     nb, nc, sc = Int('num_branches'), Int('num_chans'), Int('start_chan')
-    taps = (1, 2, 3, 8)[vc.choose(4, 'num_taps')]          # enumerated (keeps the window arithmetic within the solver's reach)
+    # enumerated (keeps the window arithmetic within the solver's reach); the thorough tier widens the enumeration
+    TAPS = (1, 2, 3, 8) if vc.tier != 'thorough' else (1, 2, 3, 4, 5, 8, 16)
+    taps = TAPS[vc.choose(len(TAPS), 'num_taps')]
     M, nsub = Int('windows_per_block'), Int('num_subblocks')
     vc.assume(And(nb >= 2, nc >= 1, sc >= 0, sc + nc <= nb // 2, M >= 1, nsub >= 1))
     bps = 2 * npol * nbits // 8
